@@ -4,7 +4,7 @@ use super::{
 };
 use crate::{
     constants::{LAST_COLUMN, LAST_ROW},
-    expressions::token::OpUnary,
+    expressions::token::{OpSum, OpUnary},
     language::Language,
     locale::Locale,
 };
@@ -58,11 +58,17 @@ fn move_function(
 ) -> String {
     let mut first = true;
     let mut arguments = "".to_string();
+    let arg_separator = if locale.numbers.symbols.decimal == "." {
+        ','
+    } else {
+        ';'
+    };
     for el in args {
         if !first {
             arguments = format!(
-                "{},{}",
+                "{}{}{}",
                 arguments,
+                arg_separator,
                 to_string_moved(el, move_context, locale, language)
             );
         } else {
@@ -111,7 +117,13 @@ fn to_string_moved(
 ) -> String {
     use self::Node::*;
     match node {
-        BooleanKind(value) => format!("{value}").to_uppercase(),
+        BooleanKind(value) => {
+            if *value {
+                language.booleans.r#true.to_string()
+            } else {
+                language.booleans.r#false.to_string()
+            }
+        }
         NumberKind(number) => format_number_locale(*number, locale),
         StringKind(value) => format!("\"{value}\""),
         ReferenceKind {
@@ -370,25 +382,76 @@ fn to_string_moved(
             );
             format!("{s1}:{s2}")
         }
-        OpRangeKind { left, right } => format!(
-            "{}:{}",
-            to_string_moved(left, move_context, locale, language),
-            to_string_moved(right, move_context, locale, language),
-        ),
-        OpConcatenateKind { left, right } => format!(
-            "{}&{}",
-            to_string_moved(left, move_context, locale, language),
-            to_string_moved(right, move_context, locale, language),
-        ),
-        OpSumKind { kind, left, right } => format!(
-            "{}{}{}",
-            to_string_moved(left, move_context, locale, language),
-            kind,
-            to_string_moved(right, move_context, locale, language),
-        ),
+        OpRangeKind { left, right } => {
+            // The operands of the range operator are primaries: any operator needs parentheses
+            let x = to_string_moved(left, move_context, locale, language);
+            let x = if matches!(
+                **left,
+                OpRangeKind { .. }
+                    | OpConcatenateKind { .. }
+                    | OpSumKind { .. }
+                    | OpProductKind { .. }
+                    | OpPowerKind { .. }
+                    | CompareKind { .. }
+                    | UnaryKind { .. }
+            ) {
+                format!("({x})")
+            } else {
+                x
+            };
+            let y = to_string_moved(right, move_context, locale, language);
+            let y = if matches!(
+                **right,
+                OpRangeKind { .. }
+                    | OpConcatenateKind { .. }
+                    | OpSumKind { .. }
+                    | OpProductKind { .. }
+                    | OpPowerKind { .. }
+                    | CompareKind { .. }
+                    | UnaryKind { .. }
+            ) {
+                format!("({y})")
+            } else {
+                y
+            };
+            format!("{x}:{y}")
+        }
+        OpConcatenateKind { left, right } => {
+            let x = to_string_moved(left, move_context, locale, language);
+            let x = if matches!(**left, CompareKind { .. }) {
+                format!("({x})")
+            } else {
+                x
+            };
+            let y = to_string_moved(right, move_context, locale, language);
+            let y = if matches!(**right, CompareKind { .. }) {
+                format!("({y})")
+            } else {
+                y
+            };
+            format!("{x}&{y}")
+        }
+        OpSumKind { kind, left, right } => {
+            let x = to_string_moved(left, move_context, locale, language);
+            let x = if matches!(**left, CompareKind { .. } | OpConcatenateKind { .. }) {
+                format!("({x})")
+            } else {
+                x
+            };
+            // on the right side OpSumKind needs parentheses if kind is minus: 1-(2-3)
+            let y = to_string_moved(right, move_context, locale, language);
+            let y = if (matches!(kind, OpSum::Minus) && matches!(**right, OpSumKind { .. }))
+                | matches!(**right, CompareKind { .. } | OpConcatenateKind { .. })
+            {
+                format!("({y})")
+            } else {
+                y
+            };
+            format!("{x}{kind}{y}")
+        }
         OpProductKind { kind, left, right } => {
             let x = match **left {
-                OpSumKind { .. } => format!(
+                OpSumKind { .. } | OpConcatenateKind { .. } => format!(
                     "({})",
                     to_string_moved(left, move_context, locale, language)
                 ),
@@ -399,7 +462,7 @@ fn to_string_moved(
                 _ => to_string_moved(left, move_context, locale, language),
             };
             let y = match **right {
-                OpSumKind { .. } => format!(
+                OpSumKind { .. } | OpConcatenateKind { .. } => format!(
                     "({})",
                     to_string_moved(right, move_context, locale, language)
                 ),
@@ -421,11 +484,35 @@ fn to_string_moved(
             };
             format!("{x}{kind}{y}")
         }
-        OpPowerKind { left, right } => format!(
-            "{}^{}",
-            to_string_moved(left, move_context, locale, language),
-            to_string_moved(right, move_context, locale, language),
-        ),
+        OpPowerKind { left, right } => {
+            // ^ associates to the left and binds tighter than the other binary operators
+            let x = to_string_moved(left, move_context, locale, language);
+            let x = if matches!(
+                **left,
+                OpConcatenateKind { .. }
+                    | OpSumKind { .. }
+                    | OpProductKind { .. }
+                    | CompareKind { .. }
+            ) {
+                format!("({x})")
+            } else {
+                x
+            };
+            let y = to_string_moved(right, move_context, locale, language);
+            let y = if matches!(
+                **right,
+                OpConcatenateKind { .. }
+                    | OpSumKind { .. }
+                    | OpProductKind { .. }
+                    | CompareKind { .. }
+                    | OpPowerKind { .. }
+            ) {
+                format!("({y})")
+            } else {
+                y
+            };
+            format!("{x}^{y}")
+        }
         NamedFunctionKind { name, args, id: _ } => {
             move_function(name, args, move_context, locale, language)
         }
@@ -441,12 +528,12 @@ fn to_string_moved(
             let row_separator = if locale.numbers.symbols.decimal == "." {
                 ';'
             } else {
-                '/'
+                '\\'
             };
             let col_separator = if row_separator == ';' { ',' } else { ';' };
             for row in args {
                 if !first_row {
-                    matrix_string.push(col_separator);
+                    matrix_string.push(row_separator);
                 } else {
                     first_row = false;
                 }
@@ -456,7 +543,7 @@ fn to_string_moved(
                 let mut row_string = String::new();
                 for el in row {
                     if !first_col {
-                        row_string.push(row_separator);
+                        row_string.push(col_separator);
                     } else {
                         first_col = false;
                     }
@@ -464,11 +551,7 @@ fn to_string_moved(
                     // Reuse your existing element-stringification function
                     row_string.push_str(&to_string_array_node(el, locale, language));
                 }
-
-                // Enclose the row in braces
-                matrix_string.push('{');
                 matrix_string.push_str(&row_string);
-                matrix_string.push('}');
             }
 
             // Enclose the whole matrix in braces
@@ -477,21 +560,48 @@ fn to_string_moved(
         DefinedNameKind((name, ..)) => name.to_string(),
         TableNameKind(name) => name.to_string(),
         NamedVariableKind { name, id: _ } => name.to_string(),
-        CompareKind { kind, left, right } => format!(
-            "{}{}{}",
-            to_string_moved(left, move_context, locale, language),
-            kind,
-            to_string_moved(right, move_context, locale, language),
-        ),
+        CompareKind { kind, left, right } => {
+            let x = to_string_moved(left, move_context, locale, language);
+            let y = to_string_moved(right, move_context, locale, language);
+            let y = if matches!(**right, CompareKind { .. }) {
+                format!("({y})")
+            } else {
+                y
+            };
+            format!("{x}{kind}{y}")
+        }
         UnaryKind { kind, right } => match kind {
-            OpUnary::Minus => format!(
-                "-{}",
-                to_string_moved(right, move_context, locale, language)
-            ),
-            OpUnary::Percentage => format!(
-                "{}%",
-                to_string_moved(right, move_context, locale, language)
-            ),
+            OpUnary::Minus => {
+                let x = to_string_moved(right, move_context, locale, language);
+                if matches!(
+                    **right,
+                    OpConcatenateKind { .. }
+                        | OpSumKind { .. }
+                        | OpProductKind { .. }
+                        | OpPowerKind { .. }
+                        | CompareKind { .. }
+                        | UnaryKind { .. }
+                ) {
+                    format!("-({x})")
+                } else {
+                    format!("-{x}")
+                }
+            }
+            OpUnary::Percentage => {
+                let x = to_string_moved(right, move_context, locale, language);
+                if matches!(
+                    **right,
+                    OpConcatenateKind { .. }
+                        | OpSumKind { .. }
+                        | OpProductKind { .. }
+                        | OpPowerKind { .. }
+                        | CompareKind { .. }
+                ) {
+                    format!("({x})%")
+                } else {
+                    format!("{x}%")
+                }
+            }
         },
         ErrorKind(kind) => format!("{kind}"),
         ParseErrorKind { formula, .. } => formula.to_string(),
@@ -500,29 +610,70 @@ fn to_string_moved(
             automatic: _,
             child,
         } => {
-            format!(
-                "@{}",
-                to_string_moved(child, move_context, locale, language)
-            )
+            let x = to_string_moved(child, move_context, locale, language);
+            if matches!(
+                **child,
+                OpRangeKind { .. }
+                    | OpConcatenateKind { .. }
+                    | OpSumKind { .. }
+                    | OpProductKind { .. }
+                    | OpPowerKind { .. }
+                    | CompareKind { .. }
+                    | UnaryKind { .. }
+            ) {
+                format!("@({x})")
+            } else {
+                format!("@{x}")
+            }
         }
         SpillRangeOperator { child } => {
-            format!(
-                "{}#",
-                to_string_moved(child, move_context, locale, language)
-            )
+            let x = to_string_moved(child, move_context, locale, language);
+            if matches!(
+                **child,
+                OpRangeKind { .. }
+                    | OpConcatenateKind { .. }
+                    | OpSumKind { .. }
+                    | OpProductKind { .. }
+                    | OpPowerKind { .. }
+                    | CompareKind { .. }
+                    | UnaryKind { .. }
+            ) {
+                format!("({x})#")
+            } else {
+                format!("{x}#")
+            }
         }
         LambdaDefKind { parameters, body } => {
-            let mut parts: Vec<String> = parameters.iter().map(|p| p.name.clone()).collect();
+            let arg_sep = if locale.numbers.symbols.decimal == "." {
+                ","
+            } else {
+                ";"
+            };
+            let mut parts: Vec<String> = parameters
+                .iter()
+                .map(|p| {
+                    if p.is_optional {
+                        format!("[{}]", p.name)
+                    } else {
+                        p.name.clone()
+                    }
+                })
+                .collect();
             parts.push(to_string_moved(body, move_context, locale, language));
-            format!("LAMBDA({})", parts.join(","))
+            format!("LAMBDA({})", parts.join(arg_sep))
         }
         LambdaCallKind { lambda, args } => {
+            let arg_sep = if locale.numbers.symbols.decimal == "." {
+                ","
+            } else {
+                ";"
+            };
             let lambda_str = to_string_moved(lambda, move_context, locale, language);
             let call_args: Vec<String> = args
                 .iter()
                 .map(|a| to_string_moved(a, move_context, locale, language))
                 .collect();
-            format!("{}({})", lambda_str, call_args.join(","))
+            format!("{}({})", lambda_str, call_args.join(arg_sep))
         }
     }
 }
